@@ -100,7 +100,7 @@ package pdf
 //@   ensures R(s) && scanFrame(s)
 //@   ensures apos(s) == old(apos(s))
 //@   ensures refof(view) == refof(s.buf) && offof(view) == offof(s.buf) + s.pos && len(view) <= s.used - s.pos
-//@   ensures len(view) == min(n, avail(s))
+//@   ensures len(view) == min(n, avail(s)) && s.used - s.pos >= old(s.used - s.pos)
 //@   ensures err != nil ==> len(view) < n && s.src.fails && err == s.err
 //@   ensures len(view) < n && s.src.fails ==> err != nil
 
@@ -148,7 +148,7 @@ package pdf
 //@   ensures ok ==> apos(s) == old(apos(s)) + 3 && avail(s) >= 0
 //@   ensures ok ==> isHex(s.src.stream[old(apos(s)) - s.P0 + 1]) && isHex(s.src.stream[old(apos(s)) - s.P0 + 2])
 //@   ensures ok ==> b == 16 * hexVal(s.src.stream[old(apos(s)) - s.P0 + 1]) + hexVal(s.src.stream[old(apos(s)) - s.P0 + 2])
-//@   ensures !ok ==> apos(s) == old(apos(s))
+//@   ensures !ok ==> apos(s) == old(apos(s)) && s.used - s.pos >= old(s.used - s.pos)
 //@   ensures !ok ==> old(avail(s)) < 3 || !isHex(s.src.stream[old(apos(s)) - s.P0 + 1]) || !isHex(s.src.stream[old(apos(s)) - s.P0 + 2])
 
 // class table against the lexical classes of ISO 32000-2, 7.2.3 (Tables 1 and 2)
@@ -174,3 +174,27 @@ package pdf
 //@   loop ScanBytes.1: invariant forall j in old(apos(s)) - s.P0 .. apos(s) - s.P0 :: wsAt(s.src.stream, old(apos(s)) - s.P0, j)
 //@   loop ScanBytes.2: invariant isComment == inCmt(s.src.stream, old(apos(s)) - s.P0, apos(s) - s.P0)
 //@   loop ScanBytes.2: invariant forall j in old(apos(s)) - s.P0 .. apos(s) - s.P0 :: wsAt(s.src.stream, old(apos(s)) - s.P0, j)
+
+// ---- names (7.3.5) ----
+//@ spec func nmStop(b seq, p int) bool = p >= len(b) || !isRegular(b[p])
+//@ spec func nmEsc(b seq, p int) bool = b[p] == '#' && p + 2 < len(b) && isHex(b[p+1]) && isHex(b[p+2])
+//@ spec func nmNext(b seq, p int) int = nmEsc(b, p) ? p + 3 : p + 1
+//@ spec func nmByte(b seq, p int) int = nmEsc(b, p) ? 16 * hexVal(b[p+1]) + hexVal(b[p+2]) : b[p]
+//@ spec rec func nmPos(b seq, st int, k int) int = k <= 0 ? st : nmNext(b, nmPos(b, st, k-1))
+
+//@ func (*scanner).ReadName (s) (res, err)
+//@   tags C01 C04 C05 C19 C20
+//@   requires R(s)
+//@   assigns s.filePos, s.pos, s.used, s.err, elems(s.buf), s.src.rdpos
+//@   ensures R(s) && scanFrame(s)
+//@   ensures apos(s) >= old(apos(s))
+//@   ensures err == nil ==> s.src.stream[old(apos(s)) - s.P0] == '/'
+//@   ensures err == nil ==> apos(s) - s.P0 == nmPos(s.src.stream, old(apos(s)) + 1 - s.P0, len(res)) && nmStop(s.src.stream, apos(s) - s.P0)
+//@   ensures err == nil ==> forall k in 0..len(res) :: res[k] == nmByte(s.src.stream, nmPos(s.src.stream, old(apos(s)) + 1 - s.P0, k)) && !nmStop(s.src.stream, nmPos(s.src.stream, old(apos(s)) + 1 - s.P0, k))
+//@   ensures err != nil ==> malformed(err) || (s.src.fails && err == s.err)
+//@   ensures s.src.fails && atEnd(s) ==> err != nil && !malformed(err)
+//@   loop 1: invariant R(s) && scanFrame(s) && apos(s) > old(apos(s))
+//@   loop 1: invariant apos(s) - s.P0 == nmPos(s.src.stream, old(apos(s)) + 1 - s.P0, len(res)) && avail(s) >= 0
+//@   loop 1: invariant refof(res) == 0 || refof(res) > \top0
+//@   loop 1: invariant forall j in offof(res)..offof(res)+len(res) :: raw(res)[j] == nmByte(s.src.stream, nmPos(s.src.stream, old(apos(s)) + 1 - s.P0, j - offof(res))) && !nmStop(s.src.stream, nmPos(s.src.stream, old(apos(s)) + 1 - s.P0, j - offof(res)))
+//@   loop 1: decreases avail(s)
